@@ -53,6 +53,11 @@ var RuleNames = []string{
 // Violation: one rule is violated. Nodes are the model nodes at whose START an error location
 // is acceptable (pointers into the Doc: *model.Def, *model.Sel, *model.Dir, *model.Arg,
 // *model.VarDef, *model.Val, or model.PosKey{ptr,"name"|"type"|"on"|"field"}).
+//
+// Four further keys name positions the printer does not mark today (they are harmless until it
+// does): PosKey{*Sel,"name"} of a fragment spread (the fragment name after `...`),
+// PosKey{*Sel,"selset"} (the `{` of a field's sub-selection), PosKey{*VarDef,"name"} (the name
+// after `$`) and PosKey{*VarDef,"typename"} (the named type inside list / non-null wrappers).
 type Violation struct {
 	Rule  string
 	Nodes []interface{}
@@ -287,7 +292,7 @@ func (c *valCtx) ruleFragmentDefinitions() {
 		for _, v := range op.Vars {
 			ty := model.PosKey{Ptr: v, What: "type"}
 			if !c.typeExists(v.Type.Name) {
-				c.add("KnownTypeNames", fmt.Sprintf("unknown type %q of variable $%s", v.Type.Name, v.Name), ty, v)
+				c.add("KnownTypeNames", fmt.Sprintf("unknown type %q of variable $%s", v.Type.Name, v.Name), ty, v, model.PosKey{Ptr: v, What: "typename"})
 				continue
 			}
 			if c.s.Type(v.Type.Name) != nil && !c.s.IsInputType(v.Type.Name) {
@@ -332,7 +337,7 @@ func (c *valCtx) ruleSelections() {
 			}
 			switch {
 			case c.s.IsLeaf(fd.Type.Name) && len(x.Sel) > 0:
-				c.add("ScalarLeafs", fmt.Sprintf("field %q of leaf type %s has a sub-selection", x.Name, fd.Type), x, model.PosKey{Ptr: x, What: "name"})
+				c.add("ScalarLeafs", fmt.Sprintf("field %q of leaf type %s has a sub-selection", x.Name, fd.Type), x, model.PosKey{Ptr: x, What: "name"}, model.PosKey{Ptr: x, What: "selset"})
 			case c.s.IsComposite(fd.Type.Name) && len(x.Sel) == 0:
 				c.add("ScalarLeafs", fmt.Sprintf("field %q of composite type %s has no sub-selection", x.Name, fd.Type), x, model.PosKey{Ptr: x, What: "name"})
 			}
@@ -714,7 +719,7 @@ func (c *valCtx) ruleVariables() {
 			if l := byName[name]; len(l) > 1 {
 				var nodes []interface{}
 				for _, v := range l {
-					nodes = append(nodes, v)
+					nodes = append(nodes, v, model.PosKey{Ptr: v, What: "name"})
 				}
 				c.add("UniqueVariableNames", fmt.Sprintf("variable $%s defined %d times in %s", name, len(l), opName), nodes...)
 			}
